@@ -297,7 +297,7 @@ struct RunOut {
     frozen: String,
 }
 
-fn eval_with<F: FnOnce(&mut Evaluator) -> Option<String>>(text: &str, setup: F, after_profile: bool) -> RunOut {
+fn eval_with<F: FnOnce(&mut Evaluator) -> Option<String>>(text: &str, setup: F, after_profile: bool, second: bool) -> RunOut {
     kit::ctx_reset();
     let mut result = String::new();
     let mut frozen = String::new();
@@ -325,6 +325,17 @@ fn eval_with<F: FnOnce(&mut Evaluator) -> Option<String>>(text: &str, setup: F, 
         }
         if let Some(n) = note {
             let _ = n;
+        }
+        // A second evaluation on the same evaluator (after the profile has been collected): the
+        // evaluator stays usable and behaves as without instrumentation.
+        if second {
+        match kit::parse("second.star", "emit(\"second\", fn0(1), g0)\ndef again(q):\n    return [q, fn0(q)]\nemit(again(2))\n") {
+            Err(e) => result += &format!(" ; second parse-error {e}"),
+            Ok(ast) => match eval.eval_module(ast, kit::globals()) {
+                Ok(v) => result += &format!(" ; second ok {}", kit::encode(v)),
+                Err(e) => result += &format!(" ; second error[{}] {}", kit::error_kind(&e), kit::clip(&kit::error_text(&e))),
+            },
+        }
         }
         drop(eval);
         // Freezing must work whatever was instrumented and however the evaluation ended; the
@@ -735,7 +746,8 @@ impl World for C18 {
             .unwrap_or_default();
         let id_to_line: BTreeMap<u32, u32> = markers.iter().map(|m| (m.0, m.1)).collect();
         // Reference.
-        let reference = eval_with(text, |_| None, false);
+        let reference = eval_with(text, |_| None, false, false);
+        let reference2 = eval_with(text, |_| None, false, true);
         let ref_seq = marker_sequence(&reference.transcript);
         let mut log: Vec<String> = reference.transcript.clone();
         log.push(reference.result.clone());
@@ -748,9 +760,11 @@ impl World for C18 {
                     None
                 },
                 true,
+                true,
             );
             o.sim_time += 1;
             o.bump("configs.profile_modes", 1);
+            let reference = &reference2;
             if r.transcript != reference.transcript || r.result != reference.result || r.frozen != reference.frozen {
                 o.violate(
                     "instrumentation-interferes",
@@ -770,6 +784,7 @@ impl World for C18 {
                     e.before_stmt_for_dap(BeforeStmtFunc::from_dyn(Box::new(CountingHook { counts: c2 })));
                     None
                 },
+                false,
                 false,
             );
             o.sim_time += 1;
